@@ -102,6 +102,22 @@ CHECKS = {
     note="Trusted: TLC; harness/tsmrig.py; position-coded payload maps octets to segment tokens. Timeouts well-ordered (4*Tseg < Tapdu): "
          "the library's default device timeouts (finding F16) are not exercised.",
     technique="TLA+ spec (TSM.tla) + TLC exhaustive; state-graph replay; TLC trace validation of recorded real executions"),
+ "C06": dict(
+    category="model_checking",
+    text="Router.tla models NetworkServiceAccessPoint.indication / process_npdu and the Who-Is-Router / I-Am-Router handlers over topologies "
+         "given as data (per-receiver frame copies, per-node caches and parked packets); TLC checks ExactlyOnce per destination kind (unicast, "
+         "remote / global / local broadcast), NotToOthers, NoDuplicate, ReplyRoutable, HopDecrement, NeverBackOnArrivalNet and Terminates "
+         "exhaustively over all trees of up to 3-4 networks with 2-3-port routers, all station patterns, cold and warm caches, bursts, low hop "
+         "counts and four cyclic topologies; four named deviations each violate their invariant. Binding: an edge cover of two state graphs is "
+         "forced on real NSAP routers and stations over VLANs (harness-owned per-receiver delivery, independent NPCI reader); seeded random "
+         "trees (2-8 networks, 1-3 stations, 2-4-port routers) x every source / destination kind, cold then warm, replies from every "
+         "recipient, injected hop counts and cyclic topologies under a step budget are recorded and validated step by step by TLC "
+         "(Trace_Router.tla).",
+    design_ref="DESIGN.md 5 (C06), Appendix A.3",
+    note="Trusted: TLC, harness/routerrig.py (topology builder, delivery scheduler, projection). Router start-up announcements disabled; "
+         "Network-Number-Is learning is C19's; 1-octet MACs. Discovery broadcasts on a cyclic topology never quiesce (I-Am-Router carries no "
+         "hop count): observed in model and code, outside the property (delivery is for loop-free internetworks, termination concerns forwarding).",
+    technique="TLA+ spec (Router.tla) + TLC exhaustive over a topology family; state-graph replay on real routers/stations; TLC step-by-step trace validation of random topologies"),
  "C07": dict(
     category="model_checking",
     text="APCI.tla transcribes clause 20.1.2-20.1.9 (eight PDU types incl. segmented variants) and the two code tables as operators; TLC "
@@ -245,6 +261,22 @@ CHECKS = {
     note="Trusted: TLC; tsmrig's independent APDU header reader; fault-free medium. An I-Am carries no max-segments, so the request-side "
          "segment-count limit is not exercisable through the public path. Function-evaluation use of TLC for the decision function.",
     technique="TLA+ decision-function spec (TSMcaps.tla) evaluated by TLC over the capability cross product; real transactions per point with wire measurements validated by TLC"),
+ "C13": dict(
+    category="model_checking",
+    text="BBMD.tla models BIPSimple / BIPForeign / BIPBBMD over IP subnets joined by an IP router: origination per role, the three "
+         "confirmation methods per BVLL function, FDT ageing, registration / renewal / ack / expiry / unregistration / deletion, with history "
+         "variables for the obligations of broadcasts in flight; TLC checks OncePerNode, NeverToOriginator, TrueSource, ServedAtLeastTTL, "
+         "GoneAfterGrace, RenewsBeforeExpiry, DeleteIsImmediate, UnregisterWithinGrace, ListedIffLive exhaustively on six layouts (2-3 "
+         "subnets, BBMDs with full / partial / directed tables, ordinary and foreign devices, TTL 1-3) and four vacuity configs violate them. "
+         "Binding: edge-cover walks of two state graphs built with the code's constants are forced on real stacks (harness-owned delivery "
+         "order, virtual time); random layouts at the property's sizes with broadcasts from every node across registration, expiry, renewal, "
+         "deletion and unregistration, plus silent-device scenarios reading the FDT every second, are recorded and judged by TLC "
+         "(Trace_BBMD.tla); every B/IP frame on the medium is checked by Trace_BVLL.tla for length field and layout.",
+    design_ref="DESIGN.md 5 (C13), Appendix A.4",
+    note="Trusted: TLC, the rig in c13.py (multiplexer shim, parked per-receiver delivery, projection incl. the private registration-timeout "
+         "task for conformance only). Loss-free medium; a device that stops renewing is modelled by suspending its task. TTL >= 65531 wraps "
+         "in Read-FDT-Ack (outside the property's 1..300 range; observation).",
+    technique="TLA+ spec (BBMD.tla) + TLC exhaustive over small layouts; state-graph replay on real B/IP stacks; TLC trace validation of random layouts and timelines"),
  "C14": dict(
     category="model_checking",
     text="TLC checks every C14 clause (fire order, FIFO among equals, never early, once per install, no fire after suspend, "
